@@ -16,7 +16,7 @@ CHECKS = {
              "characterisation) about an executable Gallina state machine of Cadence/OrderedCadence; the machine is run by vm_compute "
              "against real Cadence objects on random and exhaustive-short operation sequences after every operation, and the property "
              "statement is re-evaluated directly on the implementation.",
-        design="3/C18", technique="Coq refinement proof (guarded list state machine) + op-sequence correspondence by vm_compute"),
+        design="3/C18", technique="source-regenerated index kernels (tools/py2v.py) proved equal to the list semantics + Coq refinement proof (guarded list state machine) + op-sequence correspondence by vm_compute"),
     "C09": dict(
         text="Theorems for all inputs over exact rationals (range for every bit width, monotonicity, the affine formula, zero variance, "
              "prefix of leading samples) and for all call histories (statistics used at call n come from call n - n mod p for p>0 and from the "
